@@ -107,6 +107,26 @@ Definition bh_row_pairs (d : dist) (t : vpt) (q : Z) (K : nat) : option (list hi
 Definition bh_row (d : dist) (t : vpt) (q : Z) (K : nat) : option (list Z) :=
   option_map (map fst) (bh_row_pairs d t q K).
 
+(* fixes/F44_tsne_bh_coincident_self_neighbour.patch: the query is dropped BY INDEX (first result
+   whose index() is n); if it is not among the K + 1 results the last (farthest) one is dropped;
+   then positions 0..K-1 are read (fewer than K left: out of range, None). *)
+Fixpoint drop_first (q : Z) (l : list hitem) : option (list hitem) :=
+  match l with
+  | [] => None
+  | x :: r => if fst x =? q then Some r
+              else match drop_first q r with Some r' => Some (x :: r') | None => None end
+  end.
+
+Definition bh_row_pairs_fixed (d : dist) (t : vpt) (q : Z) (K : nat) : option (list hitem) :=
+  match vp_search_pairs d t q (K + 1) with
+  | Some l =>
+      let l' := match drop_first q l with Some r => r | None => removelast l end in
+      if Nat.eqb (length l') K then Some l' else None
+  | None => None
+  end.
+Definition bh_row_fixed (d : dist) (t : vpt) (q : Z) (K : nat) : option (list Z) :=
+  option_map (map fst) (bh_row_pairs_fixed d t q K).
+
 (* ---------- invariant of a built tree + boolean checker for dumped real trees ---------- *)
 
 Fixpoint vp_inv (d : dist) (t : vpt) : Prop :=
